@@ -98,14 +98,19 @@ P("C01", namespaces=["C01"], level_text="Theorem C01.valid_json: for every RFC 8
   suites=lambda tier: [S.JsonValidSuite(cfg=DEF), S.JsonValidSuite(cfg=CFG_ALL, n=1500 if tier == "quick" else 100000)],
   partial=[])
 
-P("C02", level_text="Theorems for every text and every capacity: the bounded writer returns min(cap,length), stores exactly that prefix, writes a NUL iff "
-  "length < cap (text formats), defines exactly cap bytes and leaves the rest untouched. The text itself (escaping, separators, numbers, pretty layout) is produced by "
-  "the model JSer/JS, compared byte for byte with serializeJson/serializeJsonPretty on generated documents; the implementation's text is parsed by an independent "
-  "RFC 8259 parser and compared with the document; all destination kinds, measureJson and guard bytes are checked inside the harness.",
-  level_note="Lean kernel for the buffer contract; RFC 8259 conformance of the text rests on the independent parser over sampled documents; known finding: raw control characters (known_findings.json)",
+P("C02", module="AJ.Props.C02All", extra=[("AJ.Props.C02", ["C02"]), ("AJ.Props.C02Parse", ["C02"])],
+  level_text="Theorems for every text and every capacity: the bounded writer returns min(cap,length), stores exactly that prefix, writes a NUL iff "
+  "length < cap (text formats), defines exactly cap bytes and leaves the rest untouched. Theorems for every document within the limits whose strings hold no raw control character other "
+  "than the five escaped ones (C02.compact_in_grammar, pretty_in_grammar, both_denote_same): the compact and the pretty text are RFC 8259 texts (relational grammar lean/AJ/Spec/Json.lean) and "
+  "both denote the same document `denote v` (same structure and order, strings and keys identical, integers exact, a finite float denotes the value of its own shortest text, non-finite "
+  "floats are written null); C02.Parse.compact_parses_back / pretty_parses_back / pretty_compact_read_same: the deserializer model reads both texts back as that document; "
+  "string_in_grammar_iff: the escaping is exactly right iff the string is Printable - the known finding (raw control characters) is the precise complement. The model's text is compared "
+  "byte for byte with serializeJson/serializeJsonPretty on generated documents; the implementation's text is parsed by an independent RFC 8259 parser and compared with the document; all "
+  "destination kinds, measureJson and guard bytes are checked inside the harness.",
+  level_note="known finding: raw control characters 0x01-0x1F other than \\b \\t \\n \\f \\r are copied unescaped (known_findings.json); theorem control_characters_not_json states it on the model",
   suites=lambda tier: [S.JsonSerSuite(cfg=DEF), S.SerBufSweep(cfg=DEF, fmt="json")] +
   ([S.JsonSerSuite(cfg=CFG_ALL, n=20000), S.JsonSerSuite(cfg={"arduino": 1}, n=20000)] if tier == "thorough" else [S.JsonSerSuite(cfg=CFG_ALL, n=600), S.JsonSerSuite(cfg={"arduino": 1}, n=400)]),
-  partial=["C02_denotes (the text is in the RFC 8259 grammar and denotes the document) rests on the correspondence and the independent parser"])
+  partial=["NaN/Infinity texts under the non-standard options are outside the grammar by design"])
 
 P("C03", level_text="Theorems for every configuration, limit, filter and byte string, JSON (filtered and unfiltered) and MessagePack: the deserializer never takes more bytes "
   "than the input has; it terminates (the model's fuel 2*len+4 is never exhausted) and never reaches a fault state (powers-of-ten table index in range for every literal); the code is "
@@ -138,27 +143,36 @@ P("C09", level_text="Theorems: every serialized document is accepted and decoded
   suites=lambda tier: [S.MpDeSuite(cfg=DEF), S.MpDeSuite(cfg={"USE_DOUBLE": 0}, n=1200 if tier == "quick" else 60000)],
   partial=["prefix_incomplete for strings/containers"])
 
-P("C10", level_text="Theorems for every byte: the hex-digit class of \\u, the set of escape letters, the exact characterisation of the literals that become integers; TooDeep is returned "
-  "exactly at the offending bracket (C15). Whole-parser acceptance/classification is tied by a bounded-exhaustive run (all token sequences up to length 3/4 over a 33-token alphabet, "
-  "plus mutated and random texts, 3 flag configurations) against the model and against an independent recognizer of the documented dialect (tools/dialect.py).",
-  level_note="accepts-iff-dialect is not yet a theorem: it rests on the bounded-exhaustive correspondence and the independent recognizer",
+P("C10", namespaces=["C10"], level_text="Theorems C10.accepts_iff / ok_iff_dialect: for every configuration (comments, NaN, Infinity, unicode decoding on or off), nesting limit and byte string, the deserializer model "
+  "returns Ok with value v exactly when the text is `white space/comments, one value of the documented dialect denoting v, then anything` (declarative grammar lean/AJ/Spec/Dialect.lean: single and double "
+  "quotes, unquoted keys, lenient numbers, NaN/Infinity when enabled, comments when enabled, raw control bytes in strings); C10.sound and C10.complete are the two directions; "
+  "C10.unclosed_refused / unclosed_never_ok: an unclosed string, array or object is never Ok; C10.empty_iff: EmptyInput exactly for inputs that are only white space/comments; C10.disabled_*: the "
+  "corresponding syntax is InvalidInput when its option is off. Classification of the remaining refusals (Incomplete vs Invalid) is tied by a bounded-exhaustive run (all token sequences up to "
+  "length 3/4 over a 33-token alphabet, mutated and random texts, 3 flag configurations) against the model and an independent recognizer of the documented dialect (tools/dialect.py).",
+  level_note="number tokens are specified through the model's own parseNumber (its value semantics are C12's subject); the Incomplete-vs-Invalid split beyond EmptyInput and the disabled options is by correspondence",
   suites=lambda tier: [S.JsonAnySuite(cfg=DEF), S.JsonAnySuite(cfg=CFG_ALL, n=6000 if tier == "quick" else 300000), S.JsonAnySuite(cfg=CFG_NOUNI, n=3000 if tier == "quick" else 100000)],
-  partial=["C10_accepts_iff"])
+  partial=["Incomplete-vs-Invalid classification of refused texts"])
 
-P("C11", level_text="Theorems: the filter `true` (and AllowAll) is the identity on every input, malformed included, for JSON and MessagePack; a value is never produced into an absent "
-  "destination; top-level projection (kind not admitted => null, scalars kept iff allowValue). Pairs (input, filter) are run through the real library, compared with the model and with the "
-  "projection of the unfiltered result computed independently; memory requested by both runs is compared.",
-  level_note="full recursive projection is tied by the correspondence + Python projection oracle; the memory clause is checked on the implementation only",
+P("C11", module="AJ.Props.C11All", extra=[("AJ.Props.C11", ["C11"]), ("AJ.Props.C11Full", ["C11"])],
+  level_text="Theorem C11.json_projection_all_inputs: for every configuration, nesting limit, filter and input on which the unfiltered run returns Ok, the filtered run returns Ok, the "
+  "projection (lean/AJ/Spec/Filter.lean: recursive, `*` wildcard, first array element, false removes, null falls back to `*`) of the unfiltered document, and the same number of bytes consumed - "
+  "repeated keys, dialect extensions and trailing bytes included; C11.skip_and_filter_simulate_parse: skipping a value leaves the reader in literally the same state as parsing it; "
+  "the filter `true` (and AllowAll) is the identity on every input, malformed included, for JSON and MessagePack; a value is never produced into an absent destination. Pairs (input, filter) are "
+  "run through the real library, compared with the model and with the projection of the unfiltered result computed independently; memory requested by both runs is compared.",
+  level_note="the MessagePack filter has the identity/top-level theorems and the correspondence, not the recursive projection theorem; the memory clause is checked on the implementation only",
   suites=lambda tier: [S.FilterSuite(cfg=DEF)],
-  partial=["recursive projection theorem"])
+  partial=["MessagePack recursive projection theorem", "memory clause"])
 
 P("C12", level_text="Theorems: every integer literal in [-2^63, 2^64) with any number of leading zeros parses to exactly that integer and nothing else does; integers print digit-exact; "
-  "print/parse round trip over the whole 64-bit range; no literal of any length reaches an out-of-range table index. Float parse/print accuracy is checked on the implementation against "
-  "exact rational arithmetic (literals up to thousands of digits through as<T>() on strings, random and boundary floats/doubles) and compared bit for bit with the softfloat model; the "
-  "powers-of-ten tables are regenerated from the source.",
-  level_note="the 1e-6/1e-13/1e-9 error bounds are established by the exact-rational oracle on sampled values, not yet by a theorem",
+  "print/parse round trip over the whole 64-bit range; no literal of any length reaches an out-of-range table index. Floating point, over exact rationals (C12.float_clauses, parse_double_error, "
+  "parse_float_error, huge_value_is_inf, tiny_value_is_zero, many_digits_double, saturated_exponent): for every RFC number literal of at most 99000 digits, a double result is within 1e-13 relative "
+  "(or is the correctly signed infinity above 1e300), a float result is within 1e-6 and never infinite, |v| >= 1e309 gives infinity, |v| < 1e-325 gives a signed zero; C12.tables_correct: the "
+  "powers-of-ten tables regenerated from the source are the correctly rounded powers (positive) / within half an ulp (negative); mul_rel_error, ofNat_rel_error, round_rel_error_int: the softfloat "
+  "steps are correctly rounded. The softfloat model is compared bit for bit with the library, and the library with exact rational arithmetic (literals up to thousands of digits through as<T>() "
+  "on strings, random and boundary floats/doubles).",
+  level_note="not theorems: the band 1e-325 <= |v| < 1e-300 (subnormal results) and the printing-side 1e-9 bound, both covered by the exact-rational oracle on sampled values",
   suites=lambda tier: [S.NumSuite(cfg=DEF)],
-  partial=["C12_parse_in_range / C12_print_* error bounds"])
+  partial=["subnormal band of the parser", "print error bound"])
 
 P("C13", level_text="Theorems for every stored number and each of the eight integral widths: as<T>() is the exact value when it lies in T's range and 0 otherwise, never undefined "
   "(the model's UB state is unreachable), the six highest_for constants (regenerated from the source) are the largest float/double not above T::max, is<T>() iff stored as an integer "
@@ -194,27 +208,34 @@ P("C18", level_text="Theorems for all values: != is the negation of ==, <= is < 
   level_note="known finding: == is asymmetric for objects with repeated keys (reachable through MessagePack)",
   suites=lambda tier: [S.CmpSuite(cfg=DEF)])
 
-P("C04", namespaces=["C04"], level_text="Theorems about the slot-level document model (total definitions over pools, free list, next-linked chains with head/tail, extension slots, "
-  "reference-counted strings) under a ghost-layout invariant WFG (chains acyclic, tail = last slot, slots used once, live in the pool): the abstraction to an ordered tree never runs out of "
-  "fuel, array append refines list append, set of every scalar/string kind (incl. 64-bit extension slots, copied/linked strings, double narrowing) writes exactly that value, clear of a "
-  "scalar/string location nulls exactly that location with the frame property (every other location keeps its value), size/findKey agree with the tree; slot ids handed out are fresh, "
-  "releases are local. The same model is compared after every operation with the real library on generated non-aliasing histories: every observation AND the allocator log, on several "
-  "pool geometries; the library's observations are also checked against an independent plain ordered-tree machine.",
-  level_note="not yet theorems: clear of a collection, removal, member append, deep copy and the lift to whole histories (tied by the correspondence); aliasing assignments are excluded",
+P("C04", module="AJ.Props.C04All", extra=[("AJ.Props.C04", ["C04"]), ("AJ.Props.C04Hist", ["C04"])],
+  level_text="Theorems about the slot-level document model (total definitions over pools, free list, next-linked chains with head/tail, extension slots, "
+  "reference-counted strings) under the invariant WF = ghost layout WFG (chains acyclic, tail = last slot, slots used once, live in the pool) + string table StrOK (reference counts = number of "
+  "referring slots): the abstraction to an ordered tree never runs out of fuel; array append refines list append and keeps WF; set of every scalar/string kind (incl. 64-bit extension slots, "
+  "copied/linked strings, double narrowing) writes exactly that value and keeps WF; clear of ANY location (scalar, string, nested array/object) nulls exactly that location, releases exactly "
+  "the slots of its subtree, drops exactly its string references, with the frame property for every location outside it; member append (appendPair) refines association-list append; "
+  "size/findKey agree with the tree; slot ids handed out are fresh, releases are local. C04.history_refines / history_trace: every history over add-element / clear / store (from any WF "
+  "document, any geometry, any failure oracle) keeps WF and each step produces the value of the list-level machine. The same model is compared after every operation with the real library on "
+  "generated non-aliasing histories: every observation AND the allocator log, on several pool geometries; the library's observations are also checked against an independent plain "
+  "ordered-tree machine.",
+  level_note="not yet theorems: removal, member insertion through the key lookup when the key is absent, deep copy; histories containing those rest on the correspondence; aliasing assignments are excluded",
   suites=lambda tier: [S.HistSuite(cfg=G["default"]), S.HistSuite(cfg=G["tiny1"], nh=40 if tier == "quick" else 2000), S.HistSuite(cfg=G["id1"], nh=30 if tier == "quick" else 2000)] +
   ([S.HistSuite(cfg=G[g], nh=1500) for g in ("tiny2", "id1c10", "id1i3", "len1", "len4")] if tier == "thorough" else []),
-  partial=["C04_refines"])
+  partial=["remove / copy / absent-key insertion refinement"])
 
-P("C05", level_text="Theorems at the slot-pool level for every state reachable under every failure oracle (one-shot positions and fail-from-k): a failed allocation changes no "
-  "live slot and keeps the pool invariant, clear() returns every block, and the allocator works again afterwards. At document level, API histories generated online against the model "
-  "(so that only usable references are touched) are run under single, fail-from-k and multi-failure schedules on an instrumented allocator: every observation and allocator log is "
-  "compared with the slot-level model, and the implementation is checked for crashes (ASan/UBSan), leaks at clear(), misuse of the allocator, unreported failures and collateral changes.",
-  level_note="document-level statements (no member without key or value, values outside the path unchanged) rest on the fault-schedule correspondence and its oracles, not yet on a theorem; "
-  "documents keep their own allocator in these histories (no copy-assignment/swap)",
+P("C05", module="AJ.Props.C05All", extra=[("AJ.Props.C05", ["C05"]), ("AJ.Props.C05Doc", ["C05"])],
+  level_text="Theorems at the slot-pool level for every state reachable under every failure oracle (one-shot positions and fail-from-k): a failed allocation changes no "
+  "live slot and keeps the pool invariant, clear() returns every block, and the allocator works again afterwards. At document level (C05.add_element_fail_clean, set_fail_clean, "
+  "add_member_fail_clean): when adding an element, storing a value or adding a member fails for lack of memory, the document is flagged overflowed, stays well-formed (WF), denotes exactly "
+  "the same tree as before (so no member exists without key or value and nothing outside the path changed) and, for member insertion, at most two slots stay allocated but unreachable. "
+  "API histories generated online against the model (so that only usable references are touched) are run under single, fail-from-k and multi-failure schedules on an instrumented allocator: "
+  "every observation and allocator log is compared with the slot-level model, and the implementation is checked for crashes (ASan/UBSan), leaks at clear(), misuse of the allocator, "
+  "unreported failures and collateral changes; deserialization is run under every single-failure position.",
+  level_note="failure inside deep copy and inside the deserializers rests on the fault-schedule correspondence and its oracles; documents keep their own allocator in these histories (no copy-assignment/swap)",
   suites=lambda tier: [S.FaultSuite(cfg=G["default"]), S.FaultSuite(cfg=G["tiny1"], nh=120 if tier == "quick" else 3000), S.FaultSuite(cfg=G["tiny2"], nh=80 if tier == "quick" else 3000),
                        S.DeserFaultSuite(cfg=G["default"]), S.DeserFaultSuite(cfg=G["tiny2"], n=300 if tier == "quick" else 20000)] +
   ([S.FaultSuite(cfg=G[g], nh=2000) for g in ("id1", "tiny2", "id1c10")] if tier == "thorough" else []),
-  partial=["document-level C05_wf / C05_frame"])
+  partial=["failure inside copy / deserializers as a theorem"])
 
 P("C06", module="AJ.Props.C19", namespaces=["C06"], level_text="Theorems at the slot-pool level: a released slot is reused before any allocator call, the allocator is called only "
   "when the free list is empty and the last pool is full or absent, clear() releases exactly one block per pool plus the heap table and nothing else. On the instrumented allocator "
